@@ -1237,13 +1237,18 @@ def impl_only_history(ctx, n, label="impl-only"):
     entries = {}         # (id(object), key) -> alias: the aliases dictionaries as last observed
     regs = {}            # id(alias) -> {(id(object), key)}: every entry ever observed to hold the alias
 
+    f3_memo = set()
+
     def observe_entries():
+        changed = set()
         for ob in objs:
             if not ob.is_alias:
                 for k3, a3 in ob.aliases.items():
                     if entries.get((id(ob), k3)) is not a3:
                         entries[(id(ob), k3)] = a3
                         regs.setdefault(id(a3), set()).add((id(ob), k3))
+                        changed.add((id(ob), k3))
+        return changed
 
     def walk():
         out, stack, seen = [], [((), col)], set()
@@ -1417,7 +1422,7 @@ def impl_only_history(ctx, n, label="impl-only"):
                 ctx.observe("direct_failure", "impl-only:through-alias:" + bad + ("/F4" if fid else ""))
                 ctx.property_failure({"stream": label, "history": list(hist)}, {"clause": bad, "detail": {"key": str(k), "through_alias": True}}, finding=fid)
                 return      # (known: the inserted object now hangs under a transient alias, the history ends here)
-        observe_entries()
+        changed_now = observe_entries()
         tree_now = walk()
         live_ids = {id(m3) for _, _, m3 in tree_now}
         for q, c2, m in tree_now:
@@ -1450,13 +1455,17 @@ def impl_only_history(ctx, n, label="impl-only"):
                     if keys and all(len(k2) < len(q) and list(q[-len(k2):]) == k2 for k2 in keys):
                         fid = "C16-F1"
                 if bad == "backref-listed" and fid is None:
-                    # C16-F3, exact: the alias HAS been written under its present path at its present target, and the entry is
-                    # now held by an alias that is no longer in the tree and still spells that path
+                    # C16-F3, exact: the entry under the alias's present path at its present target is held by an alias that is no
+                    # longer in the tree and still spells that path, and that dead alias took the entry AFTER this one had it
+                    # (this one was seen there before, or the entry changed hands during the very operation after which the
+                    # failure shows: resolved and overwritten within one set_member call)
                     h3 = m.target.aliases.get(dotted)
+                    e3 = (id(m.target), dotted)
                     try:
-                        if ((id(m.target), dotted) in regs.get(id(m), ()) and h3 is not None and h3 is not m and h3.is_alias
-                                and id(h3) not in live_ids and h3.path == dotted):
+                        if h3 is not None and h3 is not m and h3.is_alias and id(h3) not in live_ids and h3.path == dotted and (
+                                (id(m), e3, id(h3)) in f3_memo or e3 in regs.get(id(m), ()) or e3 in changed_now):
                             fid = "C16-F3"
+                            f3_memo.add((id(m), e3, id(h3)))
                     except (AttributeError, RecursionError):
                         pass
                 ctx.observe("direct_failure", "impl-only:" + bad + ("/" + fid[4:] if fid else ""))
